@@ -484,6 +484,14 @@ pub struct ThemeBuilder {
 }
 
 impl ThemeBuilder {
+    /// Use `id` (the id the root element already has) to scope local styles,
+    /// rather than the generated one. No effect unless local styles are in use.
+    pub fn scope_local_styles_to(&mut self, id: &str) {
+        if self.local_style_id.is_some() {
+            self.local_style_id = Some(id.to_owned());
+        }
+    }
+
     pub fn new(
         context: &TransformerContext,
         elements: &HashSet<String>,
